@@ -28,6 +28,8 @@ CONSTANTS NP,        \* number of processes
           Auto,      \* which processes are started at time 0 (sequence of 0/1)
           NRes,      \* number of resources (1..2)
           PoolCap,   \* pool capacity
+          BufCap, OqCap, PqCap,   \* capacities of the buffer, the object queue and the priority queue
+          UEvs,      \* pre-scheduled user events: sequence of <<time, priority, instruction>> (run in dispatcher context)
           Alphabet,  \* set of instructions <<op, a1, a2, a3>> a process may execute
           MaxLen,    \* instructions per process
           MaxTime    \* state constraint on the clock
@@ -42,7 +44,9 @@ PIDs == 1..NP
 NoInstr == <<"none", 0, 0, 0>>
 NoCallK == [op |-> "none", a |-> <<0, 0, 0>>, h |-> 0, rem |-> 0, held0 |-> 0]
 
-Header == [np |-> NP, nres |-> NRes, poolcap |-> PoolCap, bufcap |-> 1, oqcap |-> 1, pqcap |-> 1, prio |-> Prio0]
+Header == [np |-> NP, nres |-> NRes, poolcap |-> PoolCap, bufcap |-> BufCap, oqcap |-> OqCap, pqcap |-> PqCap, prio |-> Prio0]
+NUEv == Len(UEvs)
+RecObjs == (1..NRes) \cup {GPOOL, GBUFF, GOQF, GPQF}
 
 K0 ==
   [ now    |-> 0,
@@ -55,13 +59,24 @@ K0 ==
     call   |-> [p \in PIDs |-> NoCallK],
     sigin  |-> [p \in PIDs |-> 0],
     awaits |-> [p \in PIDs |-> {}],   \* [ty |-> "time", x |-> h] | [ty |-> "res", x |-> g] | [ty |-> "proc", x |-> q]
-    pwait  |-> [p \in PIDs |-> {}],   \* processes waiting for p to end
+    pwait  |-> [p \in PIDs |-> <<>>], \* processes waiting for p to end, in registration order
+    uevh   |-> [i \in 1..NUEv |-> 0],  \* handles of the user events
+    ewait  |-> [i \in 1..NUEv |-> <<>>], \* processes waiting for user event i
     xv     |-> [p \in PIDs |-> 0],
     tim    |-> [p \in PIDs |-> <<>>], \* timer handles in issue order
     gq     |-> [g \in Guards |-> {}], \* waiting lists: [p, pr, since]
     holder |-> [r \in 1..2 |-> 0],
     pheld  |-> [p \in PIDs |-> 0],
-    pinuse |-> 0 ]
+    pinuse |-> 0,
+    level  |-> 0,                      \* buffer
+    oq     |-> <<>>,                   \* object queue content
+    pqs    |-> {},                     \* priority queue content [h, obj, pr]
+    pqall  |-> <<>>,                   \* all priority queue handles issued, in order
+    flag   |-> <<0, 0>>,               \* data the condition predicates read
+    csub   |-> {},                     \* guards the condition observes
+    rec    |-> [o \in Guards |-> FALSE],
+    rect0  |-> [o \in Guards |-> 0],
+    hist   |-> [o \in Guards |-> <<>>] ]
 
 S0(kk) == [k |-> kk, ev |-> <<>>]
 Emit(S, e) == [S EXCEPT !.ev = Append(@, e)]
@@ -100,34 +115,84 @@ SnapOf(kk) ==
     nhold |-> [p \in PIDs |-> Cardinality({r \in 1..NRes : kk.holder[r] = p}) + (IF kk.pheld[p] > 0 THEN 1 ELSE 0)],
     res |-> [r \in 1..NRes |-> [inuse |-> IF kk.holder[r] = 0 THEN 0 ELSE 1, avail |-> IF kk.holder[r] = 0 THEN 1 ELSE 0, holder |-> kk.holder[r]]],
     pool |-> [inuse |-> kk.pinuse, avail |-> PoolCap - kk.pinuse, held |-> kk.pheld],
-    buf |-> [level |-> 0, space |-> 1],
-    amnt |-> [p \in PIDs |-> 0],
-    oq |-> [len |-> 0, space |-> 1, pos |-> <<>>],
-    pq |-> [len |-> 0, space |-> 1, pos |-> <<>>],
+    buf |-> [level |-> kk.level, space |-> BufCap - kk.level],
+    amnt |-> [p \in PIDs |-> IF kk.call[p].op = "bput" THEN kk.call[p].rem
+                              ELSE IF kk.call[p].op = "bget" THEN kk.call[p].a[1] - kk.call[p].rem ELSE 0],
+    oq |-> [len |-> Len(kk.oq), space |-> OqCap - Len(kk.oq),
+            pos |-> [o \in 1..15 |-> IF \E i \in 1..Len(kk.oq) : kk.oq[i] = o
+                                       THEN CHOOSE i \in 1..Len(kk.oq) : kk.oq[i] = o /\ \A j \in 1..(i - 1) : kk.oq[j] # o ELSE 0]],
+    pq |-> [len |-> Cardinality(kk.pqs), space |-> PqCap - Cardinality(kk.pqs),
+            pos |-> [i \in 1..Len(kk.pqall) |->
+                       LET h == kk.pqall[i] IN
+                       <<h, IF \E x \in kk.pqs : x.h = h
+                              THEN LET x == CHOOSE y \in kk.pqs : y.h = h IN
+                                   1 + Cardinality({y \in kk.pqs : y.pr > x.pr \/ (y.pr = x.pr /\ y.h < x.h)})
+                              ELSE 0>>]],
     gq |-> [g \in Guards |-> SetToSeq({x.p : x \in kk.gq[g]})] ]
 Snap(S) == Emit(S, SnapOf(S.k))
 
 (* ---------------------------------------------------------------------- *)
 (* resource guards                                                         *)
 (* ---------------------------------------------------------------------- *)
-Demand(kk, g) == IF g \in 1..2 THEN kk.holder[g] = 0
-                 ELSE IF g = GPOOL THEN kk.pinuse < PoolCap
-                 ELSE FALSE
+(* the recorded histories: a sample (value, time) whenever the code records one *)
+ObjVal(kk, o) == CASE o \in 1..2 -> IF kk.holder[o] = 0 THEN 0 ELSE 1
+                   [] o = GPOOL -> kk.pinuse
+                   [] o = GBUFF -> kk.level
+                   [] o = GOQF -> Len(kk.oq)
+                   [] o = GPQF -> Cardinality(kk.pqs)
+                   [] OTHER -> 0
+Rec(S, o) == IF S.k.rec[o] THEN SetK(S, [S.k EXCEPT !.hist[o] = Append(@, <<ObjVal(S.k, o), S.k.now>>)]) ELSE S
+
+PredVal(kk, pred) == CASE pred = 0 -> kk.flag[1] # 0
+                       [] pred = 1 -> kk.flag[2] # 0
+                       [] pred = 2 -> kk.holder[1] = 0
+                       [] OTHER -> kk.level >= 2
+
+Demand(kk, g) == CASE g \in 1..2 -> kk.holder[g] = 0
+                   [] g = GPOOL -> kk.pinuse < PoolCap
+                   [] g = GBUFF -> kk.level > 0
+                   [] g = GBUFR -> kk.level < BufCap
+                   [] g = GOQF -> Len(kk.oq) > 0
+                   [] g = GOQR -> Len(kk.oq) < OqCap
+                   [] g = GPQF -> Cardinality(kk.pqs) > 0
+                   [] g = GPQR -> Cardinality(kk.pqs) < PqCap
+                   [] OTHER -> FALSE
 
 (* cmb_resourceguard_signal: grant the first waiter if its demand holds.  Ties on (priority, since) are  *)
 (* resolved by process address in the code; the model leaves them open through the parameter pick.      *)
 FirstWaiters(kk, g) == {x \in kk.gq[g] : IsBest(kk.gq[g], x)}
 GuardSignalPick(S, g, x) ==
-  IF S.k.gq[g] = {} \/ ~Demand(S.k, g) THEN S
+  IF g = GCOND /\ S.k.gq[g] # {}
+    THEN \* plain guard signal on the condition's own list: the first waiter's predicate decides
+         LET S0c == Emit(S, [e |-> "Pred", p |-> x.p, pred |-> x.pred, v |-> PredVal(S.k, x.pred)]) IN
+         IF ~PredVal(S.k, x.pred) THEN S0c
+         ELSE Sched(Emit(SetK(S0c, [S0c.k EXCEPT !.gq[g] = @ \ {x}]), [e |-> "GuardGrant", g |-> g, p |-> x.p, all |-> 0, t |-> S.k.now]),
+                    "resource", S.k.now, S.k.prio[x.p], x.p, SUCCESS)
+  ELSE IF S.k.gq[g] = {} \/ ~Demand(S.k, g) THEN S
   ELSE LET S1 == SetK(S, [S.k EXCEPT !.gq[g] = @ \ {x}])
            S2 == Emit(S1, [e |-> "GuardGrant", g |-> g, p |-> x.p, all |-> 0, t |-> S.k.now])
        IN Sched(S2, "resource", S.k.now, S.k.prio[x.p], x.p, SUCCESS)
 (* deterministic representative: lowest pid among the tied first waiters (the tie is explored via pids' roles) *)
+(* cmb_condition_signal: evaluate every waiter, resume those whose predicate holds *)
+RECURSIVE CondEval(_, _)
+CondEval(S, ws) ==
+  IF ws = {} THEN S
+  ELSE LET x == CHOOSE y \in ws : \A z \in ws : y.p <= z.p
+           v == PredVal(S.k, x.pred)
+           S1 == Emit(S, [e |-> "Pred", p |-> x.p, pred |-> x.pred, v |-> v])
+           S2 == IF v THEN Sched(Emit(SetK(S1, [S1.k EXCEPT !.gq[GCOND] = @ \ {x}]),
+                                      [e |-> "GuardGrant", g |-> GCOND, p |-> x.p, all |-> 1, t |-> S.k.now]),
+                                 "condition", S.k.now, S.k.prio[x.p], x.p, SUCCESS)
+                 ELSE S1
+       IN CondEval(S2, ws \ {x})
+CondSignal(S) == CondEval(S, S.k.gq[GCOND])
+
 GuardSignal(S, g) ==
-  IF S.k.gq[g] = {} THEN S
-  ELSE LET F == FirstWaiters(S.k, g)
-           x == CHOOSE y \in F : \A z \in F : y.p <= z.p
-       IN GuardSignalPick(S, g, x)
+  LET S1 == IF S.k.gq[g] = {} THEN S
+            ELSE LET F == FirstWaiters(S.k, g)
+                     x == CHOOSE y \in F : \A z \in F : y.p <= z.p
+                 IN GuardSignalPick(S, g, x)
+  IN IF g \in S.k.csub /\ g # GCOND THEN CondSignal(S1) ELSE S1   \* forwarded to the observing condition
 
 (* ---------------------------------------------------------------------- *)
 (* process clean-up routines                                               *)
@@ -143,7 +208,8 @@ CancelAw(S, q, aws) ==
                           THEN Emit(SetK(S, [S.k EXCEPT !.gq[a.x] = {y \in @ : y.p # q}]),
                                     [e |-> "GuardRemove", g |-> a.x, p |-> q, t |-> S.k.now])
                           ELSE GuardSignal(S, a.x)          \* it had been granted: pass the turn on
-                   [] a.ty = "proc" -> SetK(S, [S.k EXCEPT !.pwait[a.x] = @ \ {q}])
+                   [] a.ty = "proc" -> SetK(S, [S.k EXCEPT !.pwait[a.x] = SelectSeq(@, LAMBDA w : w # q)])
+                   [] a.ty = "event" -> SetK(S, [S.k EXCEPT !.ewait[a.x] = SelectSeq(@, LAMBDA w : w # q)])
                    [] OTHER -> S
        IN CancelAw(S1, q, aws \ {a})
 CancelAwaiteds(S, q) ==
@@ -156,33 +222,33 @@ RECURSIVE DropRes(_, _, _)
 DropRes(S, q, rs) ==
   IF rs = {} THEN S
   ELSE LET r == CHOOSE x \in rs : TRUE
-           S1 == SetK(S, [S.k EXCEPT !.holder[r] = 0])
+           S1 == Rec(SetK(S, [S.k EXCEPT !.holder[r] = 0]), r)
        IN DropRes(GuardSignal(S1, r), q, rs \ {r})
 DropResources(S, q) ==
   LET S1 == DropRes(S, q, {r \in 1..NRes : S.k.holder[r] = q}) IN
   IF S1.k.pheld[q] > 0
-    THEN GuardSignal(SetK(S1, [S1.k EXCEPT !.pinuse = @ - S1.k.pheld[q], !.pheld[q] = 0]), GPOOL)
+    THEN GuardSignal(Rec(SetK(S1, [S1.k EXCEPT !.pinuse = @ - S1.k.pheld[q], !.pheld[q] = 0]), GPOOL), GPOOL)
     ELSE S1
 
 (* wake_process_waiters: one wakeup event per waiter, in some order (lowest pid first as representative) *)
-RECURSIVE WakeWaiters(_, _, _)
-WakeWaiters(S, ws, sig) ==
-  IF ws = {} THEN S
-  ELSE LET w == CHOOSE x \in ws : \A y \in ws : x <= y IN
-       WakeWaiters(Sched(S, "process", S.k.now, S.k.prio[w], w, sig), ws \ {w}, sig)
+RECURSIVE WakeWaiters(_, _, _, _)
+WakeWaiters(S, ws, kind, sig) ==      \* the waiter lists are LIFO: the last one registered is woken first
+  IF ws = <<>> THEN S
+  ELSE LET w == ws[Len(ws)] IN
+       WakeWaiters(Sched(S, kind, S.k.now, S.k.prio[w], w, sig), SubSeq(ws, 1, Len(ws) - 1), kind, sig)
 
 (* the three routes to the end of process q; order of the clean-up steps as in the code *)
 EndByExit(S, q, val) ==       \* cmb_process_exit (also reached by returning from the process function)
   LET S1 == DropResources(S, q)
       S2 == CancelAwaiteds(S1, q)
-      S3 == WakeWaiters(S2, S2.k.pwait[q], SUCCESS)
-  IN SetK(S3, [S3.k EXCEPT !.pwait[q] = {}, !.st[q] = "done", !.xv[q] = val, !.call[q] = NoCallK])
+      S3 == WakeWaiters(S2, S2.k.pwait[q], "process", SUCCESS)
+  IN SetK(S3, [S3.k EXCEPT !.pwait[q] = <<>>, !.st[q] = "done", !.xv[q] = val, !.call[q] = NoCallK])
 EndByStop(S, q, val) ==       \* cmb_process_stop, on another process or on the caller itself
   LET S0a == SetK(S, [S.k EXCEPT !.st[q] = "done", !.xv[q] = val, !.call[q] = NoCallK])
       S1 == CancelAwaiteds(S0a, q)
       S2 == DropResources(S1, q)
-      S3 == WakeWaiters(S2, S2.k.pwait[q], STOPPED)
-  IN SetK(S3, [S3.k EXCEPT !.pwait[q] = {}])
+      S3 == WakeWaiters(S2, S2.k.pwait[q], "process", STOPPED)
+  IN SetK(S3, [S3.k EXCEPT !.pwait[q] = <<>>])
 
 (* the process has blocked or ended: the dispatcher takes over *)
 ToDispatcher(S) == Snap(Emit(SetK(S, [S.k EXCEPT !.run = 0]), [e |-> "Disp", t |-> S.k.now]))
@@ -198,7 +264,8 @@ Finish(S, p, sig, o1) ==      \* the call returns to the script
 
 (* cmb_resourceguard_wait up to the yield *)
 GuardWait(S, p, g) ==
-  LET S1 == SetK(S, [S.k EXCEPT !.gq[g] = @ \cup {[p |-> p, pr |-> S.k.prio[p], since |-> S.k.now]},
+  LET S1 == SetK(S, [S.k EXCEPT !.gq[g] = @ \cup {[p |-> p, pr |-> S.k.prio[p], since |-> S.k.now,
+                                                     pred |-> IF g = GCOND THEN S.k.call[p].a[1] ELSE 0]},
                                 !.awaits[p] = @ \cup {[ty |-> "res", x |-> g]}])
   IN ToDispatcher(Emit(S1, [e |-> "GuardEnq", g |-> g, p |-> p, pr |-> S.k.prio[p], t |-> S.k.now]))
 (* cmb_resourceguard_wait after the yield *)
@@ -212,7 +279,7 @@ GuardBack(S, p, g, sig) ==
               ELSE GuardSignal(CancelKindOf(S2, "resource", p), g)   \* granted but leaving: revoke and pass on
        ELSE S2
 
-Grab(S, p, r) == SetK(S, [S.k EXCEPT !.holder[r] = p])
+Grab(S, p, r) == Rec(SetK(S, [S.k EXCEPT !.holder[r] = p]), r)
 
 (* cmb_resource_acquire from the top of its loop *)
 AcquireLoop(S, p, r) ==
@@ -230,19 +297,64 @@ PreemptLoop(S, p) ==
               S1 == Sched(CancelAwaiteds(SetK(S, [S.k EXCEPT !.pheld[v] = 0]), v), "interrupt", S.k.now, S.k.prio[v], v, PREEMPTED)
           IN IF loot < c.rem
                THEN PreemptLoop(SetK(S1, [S1.k EXCEPT !.pheld[p] = @ + loot, !.call[p].rem = c.rem - loot]), p)
-               ELSE SetK(S1, [S1.k EXCEPT !.pheld[p] = @ + c.rem, !.pinuse = @ - (loot - c.rem), !.call[p].rem = 0])
+               ELSE Rec(SetK(S1, [S1.k EXCEPT !.pheld[p] = @ + c.rem, !.pinuse = @ - (loot - c.rem), !.call[p].rem = 0]), GPOOL)
 PoolLoop(S, p) ==
   LET c == S.k.call[p]
       avail == PoolCap - S.k.pinuse
   IN IF avail >= c.rem
-       THEN LET S1 == SetK(S, [S.k EXCEPT !.pinuse = @ + c.rem, !.pheld[p] = @ + c.rem, !.call[p].rem = 0])
+       THEN LET S1 == Rec(SetK(S, [S.k EXCEPT !.pinuse = @ + c.rem, !.pheld[p] = @ + c.rem, !.call[p].rem = 0]), GPOOL)
                 S2 == GuardSignal(S1, GPOOL)
             IN Finish(S2, p, SUCCESS, S2.k.pheld[p])
-       ELSE LET S1 == SetK(S, [S.k EXCEPT !.pinuse = @ + avail, !.pheld[p] = @ + avail, !.call[p].rem = c.rem - avail])
+       ELSE LET S1 == IF avail > 0 THEN Rec(SetK(S, [S.k EXCEPT !.pinuse = @ + avail, !.pheld[p] = @ + avail, !.call[p].rem = c.rem - avail]), GPOOL) ELSE S
                 S2 == IF c.op = "ppre" THEN PreemptLoop(S1, p) ELSE S1
             IN IF S2.k.call[p].rem = 0
                  THEN LET S3 == GuardSignal(S2, GPOOL) IN Finish(S3, p, SUCCESS, S3.k.pheld[p])
                  ELSE GuardWait(S2, p, GPOOL)
+
+(* cmb_buffer_get / cmb_buffer_put from the top of their loops; c.rem = remaining claim *)
+BufGetLoop(S, p) ==
+  LET c == S.k.call[p] IN
+  IF S.k.level >= c.rem
+    THEN LET S1 == Rec(SetK(S, [S.k EXCEPT !.level = @ - c.rem, !.call[p].rem = 0]), GBUFF)
+             S2 == GuardSignal(S1, GBUFR)
+             S3 == IF S2.k.level > 0 THEN GuardSignal(S2, GBUFF) ELSE S2
+         IN Finish(S3, p, SUCCESS, c.a[1])
+    ELSE LET S1 == IF S.k.level > 0
+                     THEN GuardSignal(Rec(SetK(S, [S.k EXCEPT !.call[p].rem = c.rem - S.k.level, !.level = 0]), GBUFF), GBUFR)
+                     ELSE S
+         IN GuardWait(GuardSignal(S1, GBUFR), p, GBUFF)
+BufPutLoop(S, p) ==
+  LET c == S.k.call[p] IN
+  IF BufCap - S.k.level >= c.rem
+    THEN LET S1 == Rec(SetK(S, [S.k EXCEPT !.level = @ + c.rem, !.call[p].rem = 0]), GBUFF)
+             S2 == GuardSignal(S1, GBUFF)
+             S3 == IF S2.k.level < BufCap THEN GuardSignal(S2, GBUFR) ELSE S2
+         IN Finish(S3, p, SUCCESS, 0)
+    ELSE LET S1 == IF S.k.level < BufCap
+                     THEN GuardSignal(Rec(SetK(S, [S.k EXCEPT !.call[p].rem = c.rem - (BufCap - S.k.level), !.level = BufCap]), GBUFF), GBUFF)
+                     ELSE S
+         IN GuardWait(GuardSignal(S1, GBUFF), p, GBUFR)
+
+(* object queue and priority queue *)
+OqPutLoop(S, p) ==
+  IF Len(S.k.oq) < OqCap
+    THEN Finish(GuardSignal(Rec(SetK(S, [S.k EXCEPT !.oq = Append(@, S.k.call[p].a[1])]), GOQF), GOQF), p, SUCCESS, 0)
+    ELSE GuardWait(S, p, GOQR)
+OqGetLoop(S, p) ==
+  IF Len(S.k.oq) > 0
+    THEN Finish(GuardSignal(Rec(SetK(S, [S.k EXCEPT !.oq = Tail(@)]), GOQF), GOQR), p, SUCCESS, Head(S.k.oq))
+    ELSE GuardWait(S, p, GOQF)
+PqPutLoop(S, p) ==
+  IF Cardinality(S.k.pqs) < PqCap
+    THEN LET h == Len(S.k.pqall) + 1
+             S1 == SetK(S, [S.k EXCEPT !.pqs = @ \cup {[h |-> h, obj |-> S.k.call[p].a[1], pr |-> S.k.call[p].a[2]]}, !.pqall = Append(@, h)])
+         IN Finish(GuardSignal(Rec(S1, GPQF), GPQF), p, SUCCESS, h)
+    ELSE GuardWait(S, p, GPQR)
+PqGetLoop(S, p) ==
+  IF S.k.pqs # {}
+    THEN LET x == CHOOSE y \in S.k.pqs : \A z \in S.k.pqs : ~(z.pr > y.pr \/ (z.pr = y.pr /\ z.h < y.h))
+         IN Finish(GuardSignal(Rec(SetK(S, [S.k EXCEPT !.pqs = @ \ {x}]), GPQF), GPQR), p, SUCCESS, x.obj)
+    ELSE GuardWait(S, p, GPQF)
 
 (* a blocked call is resumed with signal sig *)
 Continue(S, p, sig) ==
@@ -255,7 +367,7 @@ Continue(S, p, sig) ==
     [] c.op = "wproc" ->
          LET q == c.a[1]
              S1 == IF [ty |-> "proc", x |-> q] \in S.k.awaits[p]
-                     THEN CancelKindOf(SetK(S, [S.k EXCEPT !.awaits[p] = @ \ {[ty |-> "proc", x |-> q]}, !.pwait[q] = @ \ {p}]), "process", p)
+                     THEN CancelKindOf(SetK(S, [S.k EXCEPT !.awaits[p] = @ \ {[ty |-> "proc", x |-> q]}, !.pwait[q] = SelectSeq(@, LAMBDA w : w # p)]), "process", p)
                      ELSE S
          IN Finish(S1, p, sig, 0)
     [] c.op \in {"acq", "pre"} ->
@@ -264,14 +376,34 @@ Continue(S, p, sig) ==
     [] c.op \in {"pacq", "ppre"} ->
          LET S1 == GuardBack(S, p, GPOOL, sig) IN
          IF sig = SUCCESS THEN PoolLoop(S1, p)
-         ELSE IF sig = PREEMPTED THEN Finish(S1, p, sig, S1.k.pheld[p])
          ELSE \* roll back to what it held before the call (nothing, if it was robbed meanwhile)
               LET keep == IF S1.k.pheld[p] >= c.held0 /\ S1.k.pheld[p] > 0 THEN c.held0 ELSE 0
                   back == S1.k.pheld[p] - keep
-                  S2 == SetK(S1, [S1.k EXCEPT !.pheld[p] = keep, !.pinuse = @ - back])
+                  S2 == Rec(SetK(S1, [S1.k EXCEPT !.pheld[p] = keep, !.pinuse = @ - back]), GPOOL)
                   S3 == IF back > 0 THEN GuardSignal(S2, GPOOL) ELSE S2
               IN Finish(S3, p, sig, keep)
     [] c.op = "yield" -> Finish(S, p, sig, 0)
+    [] c.op = "wevent" ->
+         LET i == c.a[1]
+             S1 == IF [ty |-> "event", x |-> i] \in S.k.awaits[p]
+                     THEN CancelKindOf(SetK(S, [S.k EXCEPT !.awaits[p] = @ \ {[ty |-> "event", x |-> i]},
+                                                           !.ewait[i] = SelectSeq(@, LAMBDA w : w # p)]), "event", p)
+                     ELSE S
+         IN Finish(S1, p, sig, 0)
+    [] c.op = "bget" ->
+         LET S1 == GuardBack(S, p, GBUFF, sig) IN
+         IF sig = SUCCESS THEN BufGetLoop(S1, p) ELSE Finish(S1, p, sig, c.a[1] - c.rem)
+    [] c.op = "bput" ->
+         LET S1 == GuardBack(S, p, GBUFR, sig) IN
+         IF sig = SUCCESS THEN BufPutLoop(S1, p) ELSE Finish(S1, p, sig, c.rem)
+    [] c.op = "qput" -> LET S1 == GuardBack(S, p, GOQR, sig) IN IF sig = SUCCESS THEN OqPutLoop(S1, p) ELSE Finish(S1, p, sig, 0)
+    [] c.op = "qget" -> LET S1 == GuardBack(S, p, GOQF, sig) IN IF sig = SUCCESS THEN OqGetLoop(S1, p) ELSE Finish(S1, p, sig, 0)
+    [] c.op = "pqput" -> LET S1 == GuardBack(S, p, GPQR, sig) IN IF sig = SUCCESS THEN PqPutLoop(S1, p) ELSE Finish(S1, p, sig, 0)
+    [] c.op = "pqget" -> LET S1 == GuardBack(S, p, GPQF, sig) IN IF sig = SUCCESS THEN PqGetLoop(S1, p) ELSE Finish(S1, p, sig, 0)
+    [] c.op = "cwait" ->
+         LET S1 == GuardBack(S, p, GCOND, sig)
+             S2 == IF sig # SUCCESS THEN CancelKindOf(S1, "condition", p) ELSE S1
+         IN Finish(S2, p, sig, 0)
     [] OTHER -> S
 
 (* ---------------------------------------------------------------------- *)
@@ -292,6 +424,12 @@ Legal(kk, p, in) ==
     [] op = "prio" -> a1 \in PIDs
     [] op = "start" -> a1 \in PIDs /\ a1 # p /\ kk.st[a1] # "alive" /\ ~(\E e \in kk.evq : e.p = a1)
     [] op = "tcancel" -> a1 \in 1..Len(kk.tim[p])
+    [] op = "wevent" -> a1 \in 1..NUEv /\ Pending(kk, kk.uevh[a1])
+    [] op = "evcancel" -> a1 \in 1..NUEv
+    [] op = "pqcancel" -> a1 \in 1..Len(kk.pqall)
+    [] op = "pqreprio" -> a1 \in 1..Len(kk.pqall) /\ \E x \in kk.pqs : x.h = kk.pqall[a1]
+    [] op \in {"ccancel", "cremove"} -> a1 \in PIDs /\ a1 # p
+    [] op = "rec" -> a1 \in RecObjs
     [] OTHER -> TRUE
 
 Exec1(S, p, in) ==
@@ -306,7 +444,7 @@ Exec1(S, p, in) ==
     [] op = "yield" -> ToDispatcher(SC)
     [] op = "wproc" ->
          IF kk.st[a1] = "done" THEN Finish(SC, p, SUCCESS, 0)
-         ELSE ToDispatcher(SetK(SC, [SC.k EXCEPT !.awaits[p] = @ \cup {[ty |-> "proc", x |-> a1]}, !.pwait[a1] = @ \cup {p}]))
+         ELSE ToDispatcher(SetK(SC, [SC.k EXCEPT !.awaits[p] = @ \cup {[ty |-> "proc", x |-> a1]}, !.pwait[a1] = Append(@, p)]))
     [] op = "acq" -> AcquireLoop(SC, p, a1)
     [] op = "pre" ->
          LET v == kk.holder[a1] IN
@@ -315,6 +453,15 @@ Exec1(S, p, in) ==
            THEN Finish(Grab(Sched(SC, "preempt", t, kk.prio[v], v, PREEMPTED), p, a1), p, SUCCESS, 0)
            ELSE AcquireLoop(SC, p, a1)
     [] op \in {"pacq", "ppre"} -> PoolLoop(SetK(SC, [SC.k EXCEPT !.call[p].rem = a1]), p)
+    [] op = "bget" -> BufGetLoop(SetK(SC, [SC.k EXCEPT !.call[p].rem = a1]), p)
+    [] op = "bput" -> BufPutLoop(SetK(SC, [SC.k EXCEPT !.call[p].rem = a1]), p)
+    [] op = "qput" -> OqPutLoop(SC, p)
+    [] op = "qget" -> OqGetLoop(SC, p)
+    [] op = "pqput" -> PqPutLoop(SC, p)
+    [] op = "pqget" -> PqGetLoop(SC, p)
+    [] op = "cwait" -> GuardWait(SC, p, GCOND)
+    [] op = "wevent" ->
+         ToDispatcher(SetK(SC, [SC.k EXCEPT !.awaits[p] = @ \cup {[ty |-> "event", x |-> a1]}, !.ewait[a1] = Append(@, p)]))
     (* ---- non-blocking *)
     [] op = "tadd" ->
          LET S1 == Sched(S, "time", t + a1, kk.prio[p], p, a2)
@@ -339,9 +486,9 @@ Exec1(S, p, in) ==
          IN Snap(Emit(S1, DoEv(p, in, 0, 0, t)))
     [] op = "start" -> Snap(Emit(Sched(S, "start", t, kk.prio[a1], a1, 0), DoEv(p, in, 0, 0, t)))
     [] op = "rel" ->
-         LET S1 == GuardSignal(SetK(S, [kk EXCEPT !.holder[a1] = 0]), a1) IN Snap(Emit(S1, DoEv(p, in, 0, 0, t)))
+         LET S1 == GuardSignal(Rec(SetK(S, [kk EXCEPT !.holder[a1] = 0]), a1), a1) IN Snap(Emit(S1, DoEv(p, in, 0, 0, t)))
     [] op = "prel" ->
-         LET S1 == GuardSignal(SetK(S, [kk EXCEPT !.pheld[p] = @ - a1, !.pinuse = @ - a1]), GPOOL) IN
+         LET S1 == GuardSignal(Rec(SetK(S, [kk EXCEPT !.pheld[p] = @ - a1, !.pinuse = @ - a1]), GPOOL), GPOOL) IN
          Snap(Emit(S1, DoEv(p, in, S1.k.pheld[p], 0, t)))
     [] op = "stop" ->
          LET S1 == Emit(S, [e |-> "StopCall", p |-> p, q |-> a1, val |-> a2, t |-> t])
@@ -349,6 +496,50 @@ Exec1(S, p, in) ==
          IN IF a1 = p THEN ToDispatcher(S2) ELSE Snap(Emit(S2, DoEv(p, in, 0, 0, t)))
     [] op = "exit" ->
          ToDispatcher(EndByExit(Emit(S, [e |-> "ExitCall", p |-> p, val |-> a1, t |-> t]), p, a1))
+    [] op = "pqcancel" ->
+         LET h == kk.pqall[a1]
+             found == \E x \in kk.pqs : x.h = h
+             S1 == IF found THEN GuardSignal(Rec(SetK(S, [kk EXCEPT !.pqs = {x \in @ : x.h # h}]), GPQF), GPQR) ELSE S
+         IN Snap(Emit(S1, DoEv(p, in, IF found THEN 1 ELSE 0, h, t)))
+    [] op = "pqreprio" ->
+         LET h == kk.pqall[a1] IN
+         Snap(Emit(SetK(S, [kk EXCEPT !.pqs = {IF x.h = h THEN [x EXCEPT !.pr = a2] ELSE x : x \in @}]), DoEv(p, in, 0, h, t)))
+    [] op = "csig" ->
+         LET S1 == CondSignal(Emit(S, [e |-> "CSigBegin", p |-> p, t |-> t])) IN
+         Snap(Emit(S1, DoEv(p, in, IF S1.k.gq[GCOND] # kk.gq[GCOND] THEN 1 ELSE 0, 0, t)))
+    [] op = "setflag" -> Snap(Emit(SetK(S, [kk EXCEPT !.flag[a1 + 1] = a2]), DoEv(p, in, 0, 0, t)))
+    [] op = "csub" -> Snap(Emit(SetK(S, [kk EXCEPT !.csub = @ \cup {IF a1 = 0 THEN 1 ELSE GBUFF}]), DoEv(p, in, 0, 0, t)))
+    [] op = "ccancel" ->
+         IF \E x \in kk.gq[GCOND] : x.p = a1
+           THEN LET S1 == Emit(SetK(S, [kk EXCEPT !.gq[GCOND] = {x \in @ : x.p # a1}]), [e |-> "GuardCancel", g |-> GCOND, p |-> a1, t |-> t])
+                IN Snap(Emit(Sched(S1, "resource", t, kk.prio[a1], a1, CANCELLED), DoEv(p, in, 1, 0, t)))
+           ELSE Snap(Emit(S, DoEv(p, in, 0, 0, t)))
+    [] op = "cremove" ->
+         IF \E x \in kk.gq[GCOND] : x.p = a1
+           THEN Snap(Emit(Emit(SetK(S, [kk EXCEPT !.gq[GCOND] = {x \in @ : x.p # a1}]), [e |-> "GuardRemove", g |-> GCOND, p |-> a1, t |-> t]),
+                          DoEv(p, in, 1, 0, t)))
+           ELSE Snap(Emit(S, DoEv(p, in, 0, 0, t)))
+    [] op = "evcancel" ->
+         LET h == kk.uevh[a1]
+             found == Pending(kk, h)
+             S1 == IF found
+                     THEN LET Sa == SetK(S, [kk EXCEPT !.evq = {e \in @ : e.h # h}])
+                              Sb == WakeWaiters(Sa, Sa.k.ewait[a1], "event", CANCELLED)
+                          IN SetK(Sb, [Sb.k EXCEPT !.ewait[a1] = <<>>])
+                     ELSE S
+         IN Snap(Emit(S1, DoEv(p, in, IF found THEN 1 ELSE 0, 0, t)))
+    [] op = "rec" ->
+         IF a2 = 1
+           THEN LET S1 == SetK(S, [kk EXCEPT !.rec[a1] = TRUE, !.rect0[a1] = t]) IN
+                Snap(Emit(Rec(S1, a1), DoEv(p, in, 0, 0, t)))
+           ELSE LET S1 == Rec(S, a1)
+                    hs == S1.k.hist[a1]
+                    S2 == Snap(Emit(SetK(S1, [S1.k EXCEPT !.rec[a1] = FALSE]), DoEv(p, in, 0, 0, t)))
+                    tend == IF Len(hs) = 0 THEN 0 ELSE hs[Len(hs)][2]
+                IN Emit(S2, [e |-> "Hist", o |-> a1, t |-> t, n |-> Len(hs), xs |-> [i \in 1..Len(hs) |-> hs[i][1]],
+                             ts |-> [i \in 1..Len(hs) |-> hs[i][2]], wsum_milli |-> 1000 * Area(hs, tend),
+                             dur |-> IF Len(hs) = 0 THEN 0 ELSE tend - hs[1][2]])
+    [] op = "nop" -> Snap(Emit(S, DoEv(p, in, 0, 0, t)))
     [] OTHER -> S
 
 ReturnFromBody(S, p) ==
@@ -374,6 +565,21 @@ DispatchEv(S, e) ==
          IF S2.k.st[p] = "alive" THEN Deliver(S2, p, e.arg) ELSE ToDispatcher(S2)
     [] e.kind \in {"resource", "preempt"} ->
          IF S1.k.st[p] = "alive" THEN Deliver(S1, p, e.arg) ELSE ToDispatcher(S1)
+    [] e.kind = "condition" ->
+         LET ra == {a \in S1.k.awaits[p] : a.ty = "res"}
+             S2 == IF ra = {} THEN S1 ELSE SetK(S1, [S1.k EXCEPT !.awaits[p] = @ \ {CHOOSE a \in ra : TRUE}])
+         IN IF S2.k.st[p] = "alive" THEN Deliver(S2, p, e.arg) ELSE ToDispatcher(S2)
+    [] e.kind = "event" ->
+         LET S2 == SetK(S1, [S1.k EXCEPT !.awaits[p] = {a \in @ : a.ty # "event"}]) IN
+         IF S2.k.st[p] = "alive" THEN Deliver(S2, p, e.arg) ELSE ToDispatcher(S2)
+    [] e.kind = "uev" ->
+         \* the processes waiting for this event get their wakeup calls first, then the action runs in dispatcher context
+         LET i == e.arg
+             S2 == WakeWaiters(S1, S1.k.ewait[i], "event", SUCCESS)
+             S3 == Emit(SetK(S2, [S2.k EXCEPT !.ewait[i] = <<>>]), [e |-> "UEvent", i |-> i, t |-> e.t])
+             in == UEvs[i][3]
+             S4 == IF Legal(S3.k, 0, in) THEN Exec1(S3, 0, in) ELSE S3
+         IN ToDispatcher(S4)
     [] e.kind = "interrupt" ->
          \* a preemption notice that this interrupt overtakes is sent again
          LET again == e.arg # PREEMPTED /\ \E f \in S1.k.evq : f.p = p /\ f.kind = "interrupt" /\ f.arg = PREEMPTED
@@ -398,10 +604,14 @@ Apply(S) ==
   /\ viol' = viol \cup r.bad
 
 Init ==
-  LET S1 == LET RECURSIVE St(_, _)
+  LET SU == LET RECURSIVE Ue(_, _)
+                Ue(S, i) == IF i > NUEv THEN S
+                            ELSE Ue(SetK(Sched(S, "uev", UEvs[i][1], UEvs[i][2], 0, i), [Sched(S, "uev", UEvs[i][1], UEvs[i][2], 0, i).k EXCEPT !.uevh[i] = S.k.nextH]), i + 1)
+            IN Ue(S0(K0), 1)
+      S1 == LET RECURSIVE St(_, _)
                 St(S, p) == IF p > NP THEN S
                             ELSE St(IF Auto[p] = 1 THEN Sched(S, "start", 0, Prio0[p], p, 0) ELSE S, p + 1)
-            IN St(S0(K0), 1)
+            IN St(SU, 1)
       S2 == Snap(S1)
       r == Fold(MInit(Header), S2.ev)
   IN /\ k = S2.k /\ mon = r.m /\ viol = r.bad
